@@ -1,5 +1,6 @@
 """C32 - Line/column conversion round-trips (experimental/source/file.go)."""
 import itertools
+import time
 from vlib import *
 
 ID = "C32"
@@ -105,6 +106,7 @@ def run(ctx):
                 "unexported functions; extra (line, column) queries for inverseLocation beyond the round trip. distinct = distinct "
                 "(text, offset, unit); non-trivial = offset > 0" % (ncorpus, maxsyms, nexh))
 
+    t_start = time.time()
     outs = ctx.impl("srcfile", [{"mode": "text", "text": t.hex()} for t in texts])
     terms, meta = [], []
     outside_guard = [0, 0]  # cases outside the guard of the partial theorem: seen, failing
@@ -174,6 +176,7 @@ def run(ctx):
 
     header = ("From Coq Require Import List NArith ZArith Bool.\nImport ListNotations.\n"
               "From PV Require Import Common.Corr Model.Utf8 Model.Lines Model.SourceFile.\nOpen Scope N_scope.\n")
+    t_coq = time.time()
     mism, err = coq_eval_mismatches("cases_C32", header, terms, "sf_chk", shard_size=700)
     if err:
         raise RuntimeError(err)
@@ -188,6 +191,7 @@ def run(ctx):
             variant, mism = "neither; closest = repaired", mism2
         else:
             variant = "neither; closest = as-is"
+    ctx.extra["timing_s"] = {"implementation_and_oracle": round(t_coq - t_start, 1), "model_in_coq": round(time.time() - t_coq, 1), "coq_terms": len(terms)}
     ctx.extra["model_variant_matching_implementation"] = variant
     ctx.extra["outside_guard_cases_seen_failing"] = outside_guard
     ctx.notes.append("theorems that apply to the implementation: " +
